@@ -96,8 +96,9 @@ def run(prop, tier, seed, replay):
     from yaw.binning import Binning
     from yaw.correlation.corrfunc import CorrFunc
 
-    ck = Check(prop, tier, seed, kernels=["k_jackknife", "k_weights", "k_normalise", "k_estimators"],
-               theorems=THEOREMS, lean_modules=["YawVerif.Props.C17"], rule=RULE,
+    ck = Check(prop, tier, seed, kernels=["k_jackknife", "k_weights", "k_normalise", "k_estimators", "k_algebra"],
+               theorems=THEOREMS + ["Yaw.C17.eq_fields", "Yaw.C17.class_methods", "Yaw.C17.algebra_flags", "Yaw.C17.glue_pinned"],
+               lean_modules=["YawVerif.Props.C17"], rule=RULE,
                assumptions=["numpy basic/advanced indexing and broadcasting as documented"])
     ck.translate()
     ck.lean_check()
